@@ -74,6 +74,33 @@ reg("C08", "rules_base", "check_C08", "other",
     "R19 (S*): each rounding function's decision tree is semantically equal to the reviewed case table (DESIGN B.2: which word is rounded, in which direction, how the pair is rebuilt). R20 (N): floor applies only libm::floor to a word, ceil only libm::ceil.",
     COMMON_ASSUME + ["DESIGN appendix B.2 (hand case analysis: each table cell equals the exact floor/ceil/round/fract)"])
 
+reg("C13", "rules_funcs", "check_C13", "other",
+    "instances = sqrt / hypot / cbrt reference forms, exact-zero division analysis, powi special-case table and call structure, panic sites reachable from powi and the Pow impls",
+    "R31 (S*): sqrt's guard table (negative -> NaN, 0 -> 0) and Karp-Markstein correction, hypot = sqrt(x^2+y^2), cbrt = zero guard + k>=1 Newton steps, compared semantically at operator level. R32 (N): with a zero argument no division by a definitely-zero value is reached. R26 (S): powi dispatches 0/1/-1 then square-and-multiply with recip for negative n and never takes i32::abs. Accuracy bounds are not decided.",
+    COMMON_ASSUME + ["accuracy bounds (32/16/48 * 2^-106, (6|n|+16) * 2^-106) are not decided: no static floating-point error analyser is available"])
+reg("C14", "rules_funcs", "check_C14", "other",
+    "instances = 161 table entries in 4 families (R33), 3 series truncation bounds (R34), range switches and reference forms of exp / exp_half / exp_m1 / exp2 / powf (R35)",
+    "R33 (S, data): every entry of the 1/i!, exp(n/128)-1, exp(n/2), exp(16n) tables is the correctly rounded double-double of its family value (family and offset inferred from the data, then enforced on every entry), and the index maps agree with the offsets. R34 (N): Taylor truncation remainders (exact rationals) stay below half the property's floors. R35 (N/S*): range-switch literals lie in the windows the property allows; exp, exp_half, exp_m1, exp2, powf equal their reference forms semantically. Accuracy floors are not decided.",
+    COMMON_ASSUME + ["rounding error of the double-double evaluation is not decided"])
+
+reg("C15", "rules_funcs", "check_C15", "other",
+    "instances = ln / log2 / ln_1p guard tables and Newton chains, log and log10 quotient forms",
+    "R37/R39 (N/S*): ln, log2, ln_1p have the exact-point and domain guards (==1 -> 0, <=0 -> NaN; ==0 -> 0, <=-1 -> NaN) and, from the f64 estimate, at least two Newton corrections of the stated template with the matching double-double inverse (exp / exp2 / exp_m1); R38 (S): log(x,b) is ln(x)/ln(b) and log10 is ln(x)/dd(ln 10), the bit-identity clauses. Accuracy floors and log2(2^k)=k are not decided.",
+    COMMON_ASSUME + ["two corrections are necessary for the stated range (one leaves ~2^-89 absolute error at |ln v| ~ 700); sufficiency (rounding error) is not decided"])
+reg("C16", "rules_funcs", "check_C16", "other",
+    "instances = sin / cos / sin_cos / tan dispatch tables incl. the inlined reduction, three kernel approximation bounds",
+    "R41/R42 (N/X): sin, cos, tan equal reference forms consisting of the validity guard, the reduction q = round(x/dd(pi/2)), r = x - q*dd(pi/2) with threshold dd(pi/4) and the quadrant tables [S,C,-S,-C] / [C,-S,-C,S] / [T,-1/T,T,-1/T]; sin_cos arm k is (sin.arm k, cos.arm k) term-for-term (the bit-for-bit clause). R43 (N): the sin/cos/tan polynomial kernels approximate their functions on |r| <= pi/4 within half the property's floors (exact rational sup-norm over isolated critical points). Rounding error of reduction and Horner evaluation is not decided.",
+    COMMON_ASSUME + ["kernel tables identified by role (leading coefficient -1/6, 1/24, 1/3)"])
+
+reg("C17", "rules_funcs", "check_C17", "other",
+    "instances = atan reduction table and range check, asin / acos forms, atan2 axis/quadrant table, two kernel approximation bounds",
+    "R44 (N): atan's five-interval reduction has thresholds 2,3,5,10 on k = 4|x| + 1/4, arm constants equal to dd(atan 1/2), dd(pi/4), dd(atan 3/2), dd(pi/2), the same c in numerator and denominator of each transform, sign restoration, and the transforms map into the kernel interval (exact rationals). R45 (S*): asin / acos reference forms. R46 (N): atan2's axis and quadrant table equals the stated convention. R43' (N): asin and atan kernels approximate within half the floors. End-to-end accuracy is not decided.",
+    COMMON_ASSUME + ["conditioning of the half-angle branch near |x| = 1 is not decided"])
+reg("C18", "rules_funcs", "check_C18", "other",
+    "instances = six definitions, conjugate-sum lint instances, odd-symmetry proofs",
+    "R49 (S): cosh/sinh/tanh/acosh/asinh/atanh are the stated combinations of exp, ln, sqrt. R47 (N, repository-specific numerical lint): t + sqrt(t*t + c) is evaluated only with t >= 0 (abs / sign split) wherever the accurate domain contains negative arguments. R48 (S, algebra Z): sinh and tanh normalise to odd functions, so accuracy for negative arguments is accuracy for positive ones. Accuracy bounds and exact points are not decided.",
+    COMMON_ASSUME + ["accuracy of exp / ln / sqrt themselves (C13-C15) is not re-derived"])
+
 def main(argv):
     if not argv:
         print('usage: check <ID>|all [--tier quick|thorough]'); return 2
